@@ -105,6 +105,9 @@ class Ids(object):
     def b_keep_alive(self, kid):
         return struct.pack('>q', kid) if self.keep_alive_long else varint(kid)
 
+    def b_chat(self, text, position=0):
+        return string(text) + bytes([position]) + (bytes(16) if self.ctx.protocol_later_eq(718) else b'')
+
     def b_position_look(self, x, y, z, yaw, pitch, flags, tid):
         b = struct.pack('>dddffB', x, y, z, yaw, pitch, flags)
         if self.ctx.protocol_later_eq(107):
